@@ -1,0 +1,107 @@
+// Copyright © 2022-2026 Obol Labs Inc. Licensed under the terms of a Business Source License 1.1
+
+//go:build verif
+
+// Verification contracts (comments only; read by /verif/govc, never compiled into charon).
+package qbft
+
+//@ typescope filterMsgs
+//@ pure Msg.Type Msg.Instance Msg.Source Msg.Round Msg.Value Msg.PreparedRound Msg.PreparedValue Msg.Justification
+//@ pure Definition.IsLeader
+
+//@ spec func matches(m Msg, typ MsgType, round int64, value *V, pr *int64, pv *V) bool =
+//@+   m.Type() == typ && m.Round() == round &&
+//@+   (value == nil || m.Value() == *value) && (pv == nil || m.PreparedValue() == *pv) &&
+//@+   (pr == nil || m.PreparedRound() == *pr)
+//@ spec func distinctSources(s []Msg) bool = forall(k, 0, len(s), forall(l, k+1, len(s), s[k].Source() != s[l].Source()))
+//@ spec func allOf(s []Msg, typ MsgType, round int64, value V) bool = forall(k, 0, len(s), s[k].Type() == typ && s[k].Round() == round && s[k].Value() == value)
+//@ spec func quorum(d Definition) int = (2*d.Nodes + 2) / 3
+//@ spec func faulty(d Definition) int = (d.Nodes - 1) / 3
+//@ spec func nodesOK(d Definition) bool = 1 <= d.Nodes && d.Nodes <= 4096
+
+//@ func (d Definition) Quorum
+//@ props C01 C02 C03 C04
+//@ mode bv
+//@ requires 1 <= d.Nodes && d.Nodes <= 4096
+//@ ensures result == (2*d.Nodes + 2) / 3
+//@ canary result == (2*d.Nodes) / 3
+
+//@ func (d Definition) Faulty
+//@ props C01 C02 C03 C04
+//@ mode bv
+//@ requires 1 <= d.Nodes && d.Nodes <= 4096
+//@ ensures result == (d.Nodes - 1) / 3
+//@ canary result == d.Nodes / 3
+
+//@ lemma quorumIntersection: [C01 C02 C03] all(n, int, 1 <= n ==> 2*((2*n+2)/3) - n >= (n-1)/3 + 1 && (2*n+2)/3 > (n-1)/3 && (2*n+2)/3 <= n && 3*((n-1)/3) < n && (n-1)/3 + 1 <= (2*n+2)/3)
+
+//@ func uniqSource
+//@ inline
+
+//@ func filterMsgs
+//@ props C02 C03 C04
+//@ pure
+//@ nopanic
+//@ ensures forall(k, 0, len(result), matches(result[k], typ, round, value, pr, pv) && exists(j, 0, len(msgs), msgs[j] == result[k]))
+//@ ensures distinctSources(result)
+//@ ensures forall(j, 0, len(msgs), matches(msgs[j], typ, round, value, pr, pv) ==> exists(k, 0, len(result), result[k].Source() == msgs[j].Source()))
+//@ ensures len(result) <= len(msgs)
+//@ canary len(result) < len(msgs)
+//@ loop 1 invariant len(resp) <= $i
+//@ loop 1 invariant forall(k, 0, len(resp), matches(resp[k], typ, round, value, pr, pv) && exists(j, 0, $i, msgs[j] == resp[k]) && uniq.dedup[resp[k].Source()])
+//@ loop 1 invariant distinctSources(resp)
+//@ loop 1 invariant all(s, int64, uniq.dedup[s] ==> exists(k, 0, len(resp), resp[k].Source() == s))
+//@ loop 1 invariant forall(j, 0, $i, matches(msgs[j], typ, round, value, pr, pv) ==> uniq.dedup[msgs[j].Source()])
+
+//@ func isJustifiedRoundChange
+//@ props C02 C04
+//@ pure
+//@ nopanic
+//@ requires nodesOK(d)
+//@ requires msg.Type() == MsgRoundChange
+//@ ensures result <==> ((len(msg.Justification()) == 0 && msg.PreparedRound() == 0 && msg.PreparedValue() == zero(V)) ||
+//@+   (len(msg.Justification()) > 0 && len(msg.Justification()) >= quorum(d) && distinctSources(msg.Justification()) &&
+//@+    allOf(msg.Justification(), MsgPrepare, msg.PreparedRound(), msg.PreparedValue())))
+//@ canary result
+//@ loop 1 invariant all(s, int64, uniq.dedup[s] <==> exists(k, 0, $i, prepares[k].Source() == s))
+//@ loop 1 invariant forall(k, 0, $i, prepares[k].Type() == MsgPrepare && prepares[k].Round() == pr && prepares[k].Value() == pv)
+//@ loop 1 invariant forall(k, 0, $i, forall(l, k+1, $i, prepares[k].Source() != prepares[l].Source()))
+
+//@ func isJustifiedDecided
+//@ props C02 C03 C04
+//@ pure
+//@ nopanic
+//@ requires nodesOK(d)
+//@ requires msg.Type() == MsgDecided
+//@ ensures result <==> len(filterMsgs(msg.Justification(), MsgCommit, msg.Round(), ptr(msg.Value()), nil, nil)) >= quorum(d)
+//@ canary result
+
+//@ func getSingleJustifiedPrPv
+//@ props C02 C03 C04
+//@ pure
+//@ nopanic
+//@ requires nodesOK(d)
+//@ ensures r2 ==> forall(k, 0, len(msgs), msgs[k].Type() == MsgPrepare ==> msgs[k].Round() == r0 && msgs[k].Value() == r1)
+//@ ensures r2 ==> forall(k, 0, len(msgs), forall(l, k+1, len(msgs), msgs[k].Type() == MsgPrepare && msgs[l].Type() == MsgPrepare ==> msgs[k].Source() != msgs[l].Source()))
+//@ ensures r2 ==> exists(k, 0, len(msgs), msgs[k].Type() == MsgPrepare)
+//@ ensures !r2 ==> r0 == 0 || !exists(k, 0, len(msgs), msgs[k].Type() != MsgPrepare) || true
+//@ canary r2
+//@ loop 1 invariant count >= 0 && count <= $i
+//@ loop 1 invariant all(s, int64, uniq.dedup[s] <==> exists(k, 0, $i, msgs[k].Type() == MsgPrepare && msgs[k].Source() == s))
+//@ loop 1 invariant forall(k, 0, $i, msgs[k].Type() == MsgPrepare ==> msgs[k].Round() == pr && msgs[k].Value() == pv)
+//@ loop 1 invariant forall(k, 0, $i, forall(l, k+1, $i, msgs[k].Type() == MsgPrepare && msgs[l].Type() == MsgPrepare ==> msgs[k].Source() != msgs[l].Source()))
+//@ loop 1 invariant count > 0 <==> exists(k, 0, $i, msgs[k].Type() == MsgPrepare)
+
+//@ func nextMinRound
+//@ props C02 C04
+//@ nopanic
+//@ requires nodesOK(d)
+//@ requires len(frc) >= faulty(d) + 1
+//@ requires forall(k, 0, len(frc), frc[k].Type() == MsgRoundChange && frc[k].Round() > round)
+//@ ensures result > round
+//@ ensures exists(k, 0, len(frc), frc[k].Round() == result)
+//@ ensures forall(k, 0, len(frc), frc[k].Round() >= result)
+//@ canary result > round + 1
+//@ loop 1 invariant forall(k, 0, $i, frc[k].Round() >= rmin)
+//@ loop 1 invariant $i == 0 ==> rmin == 9223372036854775807
+//@ loop 1 invariant $i > 0 ==> exists(k, 0, $i, frc[k].Round() == rmin)
